@@ -263,8 +263,18 @@ func vFFFD(s string) string {
 
 func vCompareParse(src string, lang language.Language) string {
 	var got []vRC
-	for _, c := range Parse([]byte(src), lang) {
+	// the caller's array is larger than the slice handed in (buf[:n]): neither the
+	// slice nor the bytes behind it may be written to
+	backing := make([]byte, len(src)+8)
+	copy(backing, src)
+	for i := len(src); i < len(backing); i++ {
+		backing[i] = '#'
+	}
+	for _, c := range Parse(backing[:len(src)], lang) {
 		got = append(got, vRC{c.StartLine, c.EndLine, c.Text})
+	}
+	if string(backing[:len(src)]) != src || string(backing[len(src):]) != "########" {
+		return fmt.Sprintf("Parse modified the caller's byte array: %q behind the slice, slice intact: %v", backing[len(src):], string(backing[:len(src)]) == src)
 	}
 	want := vRefParse(src, lang)
 	if len(got) != len(want) {
@@ -313,6 +323,9 @@ func vAlphabet(lang language.Language, max int) []string {
 	if lang == language.Go {
 		extras = []string{"\n", "\"", "`", "a", "\\", "'"}
 	}
+	// a carriage return takes the place of the least interesting extra where the
+	// delimiters leave room for only a few
+	extras = append([]string{"\n", "\r"}, extras[1:]...)
 	for _, x := range extras {
 		if len(out) >= max {
 			break
@@ -326,7 +339,7 @@ func vAlphabet(lang language.Language, max int) []string {
 
 // vProgram assembles a long random program from lexemes, with adjacency forced.
 func vProgram(r *rand.Rand, lang language.Language, n int) string {
-	lex := []string{"a", "x1", " ", " ", "\n", "\n", "\"", "'", "\"str\"", "'c'", "\"a\\\"b\"", "\\", "é", "漢", "\xff", "0", "(", ")", ";", "\"\"", "''", "\"/*\"", "\"//\"", "'#'"}
+	lex := []string{"\r\n", "\r", "a", "x1", " ", " ", "\n", "\n", "\"", "'", "\"str\"", "'c'", "\"a\\\"b\"", "\\", "é", "漢", "\xff", "0", "(", ")", ";", "\"\"", "''", "\"/*\"", "\"//\"", "'#'"}
 	add := func(s string) {
 		if s != "" {
 			lex = append(lex, s, s, s)
